@@ -189,6 +189,8 @@ func runC18(c *Ctx, r *Report) {
 	c18LineReaderSeparator(c, r)
 	c18FloatIndex(c, r)
 	c18BoundedRecursion(c, r)
+	c18ClampBelowLength(c, r)
+	c18MapGetNil(c, r)
 	r.Rule("R18.7", "a failed read ends the read loop (= R17.12): no path on which a reader's low-level read returned a non-nil, unclassified error leads back to the same read")
 	sub := NewReport("tmp", r.Tier)
 	c17ReadErrors(c, sub)
